@@ -162,7 +162,7 @@ HOOK_COMMITS = ['ae5437e']
 PROPS = {
     'C01': dict(
         monitor=True,
-        streams=[chain_stream(8000, 300000, _nt_c01), chain_stream(3000, 100000, _nt_c01, name='ifaceout'),
+        streams=[chain_stream(8000, 300000, _nt_c01), chain_stream(3000, 100000, _nt_c01, name='ifaceout'), chain_stream(4000, 150000, _nt_c01, name='ifacesub'),
                  dict(name='history', n_quick=800, n_thorough=20000, nontrivial=_nt_pair, compare=_pair_compare, wf_check=False)],
         rule=CHAIN_RULE + 'C01 non-trivial: the chain binds and some provider is called with at least one argument. stream history (as for C11, without the race '
              'detector): the Loose / interface-matching clause must also hold for providers from which other providers have been derived with further Loose annotations. '
@@ -178,7 +178,7 @@ PROPS = {
     ),
     'C02': dict(
         monitor=True,
-        streams=[chain_stream(8000, 300000, _nt_c02), chain_stream(3000, 100000, _nt_c02, name='ifaceout')],
+        streams=[chain_stream(8000, 300000, _nt_c02), chain_stream(3000, 100000, _nt_c02, name='ifaceout'), chain_stream(4000, 150000, _nt_c02, name='ifacesub')],
         rule=CHAIN_RULE + 'C02 non-trivial: the chain binds and a wrapper receives values from inner() or invoke returns values',
         level_text='Theorems exec_refines_sem / chain_refines (Coq, no axioms): the machine\'s final array represents the reference up environment '
                    '(final function\'s returns overridden by each wrapper\'s own returns; the environment of the last inner() call; all zero when the '
@@ -246,7 +246,7 @@ PROPS = {
     ),
     'C03': dict(
         monitor=True,
-        streams=[chain_stream(8000, 300000, _nt_c03)],
+        streams=[chain_stream(8000, 300000, _nt_c03), chain_stream(3000, 100000, _nt_c03, name='ifacesub')],
         rule=CHAIN_RULE + 'C03 non-trivial: the chain binds and at least one supplied provider is excluded',
         level_text='Theorems select_sound (whatever the elimination heuristics did, a chain that binds has, under the final marks, an included '
                    'source for every input of every included provider and an included consumer for every must-consume flow; Required providers are '
